@@ -641,6 +641,9 @@ func (ic *instCtx) instantiate(asserts []*Sx, rounds int) []*Sx {
 								}
 							}
 						}
+						if dbg := os.Getenv("VERIF_INSTDEBUG"); dbg != "" && strings.Contains(q.L[1].String(), dbg) {
+							fmt.Fprintf(os.Stderr, "instdebug round %d var %s ctxs %v candidates %d budget %d\n", r, n, ctxs, len(set), budget)
+						}
 						if len(set) == 0 {
 							continue
 						}
@@ -795,4 +798,104 @@ var heapVerRe = regexp.MustCompile(`\b(?:Hm|Hh|Hc|Hx|Hl|Hv|H0|H)\.([A-Za-z0-9_.#
 // canonHeapNames replaces versioned heap array names by their key (H.map_dom!70, H0.map_dom -> map_dom).
 func canonHeapNames(s string) string {
 	return heapVerRe.ReplaceAllString(s, "$1$2")
+}
+
+// abbreviate names long ground applications of uninterpreted functions (pure calls, string conversions): every
+// maximal-by-construction (innermost first) ground subterm with head str.of / uf.* whose printed form is long gets a
+// constant with a defining equality. Skolemised goals then mention short keys that serve as instantiation candidates.
+func (ic *instCtx) abbreviate(asserts []*Sx, funSort map[string]string) []*Sx {
+	names := map[string]string{}
+	var defs []*Sx
+	n := 0
+	var walk func(x *Sx, bound map[string]bool) (*Sx, bool)
+	walk = func(x *Sx, bound map[string]bool) (*Sx, bool) {
+		if x.isAtom() {
+			return x, !bound[x.A]
+		}
+		h := x.head()
+		if h == "forall" || h == "exists" {
+			if len(x.L) != 3 {
+				return x, false
+			}
+			nb := map[string]bool{}
+			for k := range bound {
+				nb[k] = true
+			}
+			ns, _ := binders(x.L[1])
+			for _, v := range ns {
+				nb[v] = true
+			}
+			body, _ := walk(x.L[2], nb)
+			if body == x.L[2] {
+				return x, false
+			}
+			return &Sx{L: []*Sx{x.L[0], x.L[1], body}}, false
+		}
+		if h == "!" {
+			// (! body :pattern (...)): patterns are rewritten consistently with the body
+			out := make([]*Sx, len(x.L))
+			changed := false
+			for i, c := range x.L {
+				nc, _ := walk(c, bound)
+				out[i] = nc
+				if nc != c {
+					changed = true
+				}
+			}
+			if !changed {
+				return x, false
+			}
+			return &Sx{L: out}, false
+		}
+		ground := true
+		changed := false
+		out := make([]*Sx, len(x.L))
+		for i, c := range x.L {
+			nc, g := walk(c, bound)
+			out[i] = nc
+			if nc != c {
+				changed = true
+			}
+			if !g && i > 0 {
+				ground = false
+			}
+		}
+		r := x
+		if changed {
+			r = &Sx{L: out}
+		}
+		if ground && (h == "str.of" || strings.HasPrefix(h, "uf.")) {
+			if srt, ok := funSort[h]; ok && srt == "Int" {
+				s := r.String()
+				if len(s) > 160 {
+					nm, ok := names[s]
+					if !ok {
+						n++
+						nm = fmt.Sprintf("abbr!!%d", n)
+						names[s] = nm
+						ic.decls = append(ic.decls, fmt.Sprintf("(declare-const %s Int)", nm))
+						defs = append(defs, list(atom("="), atom(nm), r))
+					}
+					return atom(nm), true
+				}
+			}
+		}
+		return r, ground
+	}
+	out := make([]*Sx, 0, len(asserts))
+	for _, a := range asserts {
+		na, _ := walk(a, map[string]bool{})
+		out = append(out, na)
+	}
+	return append(defs, out...)
+}
+
+var declFunRe = regexp.MustCompile(`\(declare-fun ([^ ]+) \([^)]*(?:\([^)]*\)[^)]*)*\) ([A-Za-z]+)\)`)
+
+func funSorts(head string) map[string]string {
+	m := map[string]string{}
+	for _, sm := range declFunRe.FindAllStringSubmatch(head, -1) {
+		m[sm[1]] = sm[2]
+	}
+	return m
 }
